@@ -351,6 +351,13 @@ def run(ctx):
                 reach |= cfg.reachable(s, avoid=through)
             escaped = [e for e in exits if e in reach and e not in through]
             key = "%s|%s" % (path, what)
+            # ... and an error exit neither: a failing step after the list was changed (a `?` inside the insertion loop) would return with
+            # the map still indexing the list as it was
+            any_ret = [i_ for i_, b_ in enumerate(f.mir["blocks"]) if b_["t"]["k"] == "return" and i_ in reach]
+            if not escaped and any_ret:
+                ctx.bad(R_rebuild, key + "|error-exit", "%s:%d" % (f.file, ln), "after `%s` the function can return (bb%d, an error path) without rebuild_file_map" % (what, any_ret[0]),
+                        "a failure half-way leaves the archive list changed and the name→archive map indexing the old list: later lookups resolve names to the wrong archive or report files missing that the chain holds")
+                continue
             if escaped:
                 ctx.bad(R_rebuild, key, "%s:%d" % (f.file, ln), "after `%s` a success return (bb%d) is reachable without rebuild_file_map" % (what, escaped[0]),
                         "lookups would keep resolving names through a stale name→archive map")
